@@ -24,7 +24,7 @@ REPO = os.environ.get("VERIF_REPO", "/repo")
 SPEC = os.path.join(VERIF, "spec")
 HARNESS = os.path.join(VERIF, "harness")
 BUILD = os.environ.get("VERIF_BUILD", os.path.join(VERIF, "build"))
-EVID = os.path.join(VERIF, "evidence")
+EVID = os.environ.get("VERIF_EVID", os.path.join(VERIF, "evidence"))
 TLA_CP = "/opt/veriftools/tla/tla2tools.jar:/opt/veriftools/tla/CommunityModules-deps.jar"
 NCPU = os.cpu_count() or 4
 
